@@ -83,6 +83,44 @@ def ok_edge_guard(body, cfg, blk):
     return False
 
 
+PAYLOAD_COMBINATORS = r"^std::option::Option::<T>::(and_then|map|map_or|map_or_else)$"
+
+
+def payload_closures(prog, body):
+    """[(closure body, rewrite)] for the closures of `body` that an Option combinator applies to the `Some` payload of its receiver
+    (`opt.and_then(|p| ..)`, `.map(..)`, `.map_or(d, |p| ..)`, `.map_or_else(|| d, |p| ..)`): inside such a closure the parameter IS the
+    payload, exactly as in the `Some(p) =>` arm of a match on the receiver.  `rewrite` turns a canonical term of the closure into the term
+    of `body` it stands for (captures -> the captured values, parameter -> `<receiver>@Some.0`)."""
+    out = []
+    made = {}
+    for i, si, st in body.assigns():
+        rv = st["rv"]
+        if rv.get("k") == "agg" and rv.get("ak") == "closure":
+            made[rv["def"]] = [expr(body, f) for f in rv["fields"]]
+    for bb, t in body.calls():
+        if not call_matches(t, PAYLOAD_COMBINATORS) or not t["args"]:
+            continue
+        recv = expr(body, t["args"][0])
+        for a in t["args"][1:]:
+            e = expr(body, a)
+            for d, caps in made.items():
+                c = prog.body(d)
+                # one explicit parameter (the payload); the `|| default` closure of map_or_else has none
+                if c is None or not e.startswith("closure:" + d.split("::")[-1] + "[") or c.arg_count != 2:
+                    continue
+
+                def rewrite(term, caps=caps, payload=recv + "@Some.0"):
+                    def one(mo):
+                        if mo.group(1) == "2":
+                            return payload
+                        if mo.group(2) is not None and int(mo.group(2)) < len(caps):
+                            return caps[int(mo.group(2))]
+                        return mo.group(0)
+                    return re.sub(r"\barg(2)\b(?!\d)|\barg1\.(\d+)", one, term)
+                out.append((c, rewrite))
+    return out
+
+
 def run_trie(ctx):
     prog = ctx.prog
     ctx.rule("TRIE-WRITERS", "KeyMap.mapping is mutated only by register (+ private helpers/closures), clear and constructors", floor=3)
@@ -160,20 +198,24 @@ def run_trie(ctx):
         ctx.anchor("TRIE-REGISTER", "register/register_rec")
         return
     rg = inl(prog, rg.path)      # private single-caller helpers (not the recursive descent) expanded in place
-    ins = [(bb, t) for bb, t in rg.calls() if call_matches(t, r"BTreeMap::<K, V, A>::insert$")]
+    # where the insert may be written: register itself, or a closure of it that an Option combinator runs on the `Some` payload
+    # (`split_last().and_then(|(key, chord)| ..)`); the closure's terms are read in register's terms (captures, payload)
+    views = [(rg, lambda e: e)] + payload_closures(prog, rg)
+    ins = [(v, sub, bb, t) for v, sub in views for bb, t in v.calls() if call_matches(t, r"BTreeMap::<K, V, A>::insert$")]
     rr = None
     ok = False
     if len(ins) == 1:
-        a = [expr(rg, x) for x in ins[0][1]["args"]]
+        vb, sub = ins[0][0], ins[0][1]
+        a = [sub(expr(vb, x)) for x in ins[0][3]["args"]]
         # the split of the chord may be matched (`@Some`) or taken with `?` (`@Continue`); the descent helper may have any name
         m = re.match(r"^(?P<h>[\w:]+)\(arg1, (?P<sl>slice::split_last\(arg2\)@(?:Some|Continue)\.0)\.1\)\.mapping$", a[0])
         if m:
             ok = len(a) == 3 and a[1] == m.group("sl") + ".0" and a[2] == "Result::Ok(arg3)"
-            for bb, t in rg.calls():
+            for bb, t in vb.calls():
                 nm = callee_name(t) or ""
                 if (t["fn"].get("local") or t["fn"].get("resolved_local")) and nm.endswith("::" + m.group("h").split("::")[-1]) and prog.body(nm) is not None:
                     rr = prog.body(nm)
-    ctx.instance("TRIE-REGISTER", {"insert": [expr(rg, a)[:80] for a in ins[0][1]["args"]] if ins else None, "descent": rr.path if rr else None, "ok": ok})
+    ctx.instance("TRIE-REGISTER", {"insert": [ins[0][1](expr(ins[0][0], a))[:80] for a in ins[0][3]["args"]] if ins else None, "descent": rr.path if rr else None, "ok": ok})
     if rr is None and not ok:
         ctx.anchor("TRIE-REGISTER", "register/register_rec")
         return
